@@ -192,6 +192,27 @@ func (s *scen) run() core.Result {
 		r.Add(fmt.Sprintf("j2t.Do|%s|%s|panic@%s:%s", s.op, s.trigger, pi.Site, core.PanicClass(pi.Val)), "doc %s\npanic: %.300s\n%.1500s", clip(s.doc, 300), pi.Val, pi.Stack)
 		return r
 	}
+	{
+		// the same conversion with every pool of the library empty: all pooled objects come fresh from their
+		// constructors, as in the first conversion of a process
+		vsync.Controlled = true
+		vsync.Reset()
+		var o4 []byte
+		var e4 error
+		pi4 := core.Catch(func() { o4, e4 = cv.Do(ctx, desc, append([]byte{}, s.doc...)) })
+		vsync.Reset()
+		vsync.Controlled = false
+		r.Count("conversions", 1)
+		if pi4 != nil {
+			r.Class = "panic"
+			r.Add(fmt.Sprintf("j2t.Do|%s|fresh-pooled-objects|panic@%s:%s", s.op, pi4.Site, core.PanicClass(pi4.Val)), "doc %s\npanic: %.300s", clip(s.doc, 300), pi4.Val)
+			return r
+		}
+		if (e4 == nil) != (cerr == nil) || (e4 == nil && !bytes.Equal(o4, out)) {
+			r.Class = "violation"
+			r.Add(fmt.Sprintf("j2t.Do|%s|%s|differs-with-fresh-pooled-objects", s.op, s.trigger), "options %s\ndoc %s\nwith the pooled objects of this process: %s err=%v\nwith fresh ones: %s err=%v", s.optName, clip(s.doc, 400), cliphex(out, 200), cerr, cliphex(o4, 200), e4)
+		}
+	}
 	if cerr == nil && poolpoison.Aliased(out) {
 		r.Class = "violation"
 		r.Add(fmt.Sprintf("j2t.Do|%s|result-aliases-pooled-buffer", s.op), "trigger %s, options %s: the %d bytes returned by Do change when the buffers in the converters' pool are overwritten\ndoc %s", s.trigger, s.optName, len(out), clip(s.doc, 300))
